@@ -1085,7 +1085,7 @@ class ImportanceNestedSampler(BaseNestedSampler):
                 self.training_samples.samples["logL"]
                 >= self.log_likelihood_threshold
             ),
-            self.training_samples.samples.size - self.min_samples,
+            max(0, self.training_samples.samples.size - self.min_samples),
         )
         self.current_training_samples = self.training_samples.samples[
             n_train:
